@@ -12,8 +12,8 @@ import tempfile
 
 from . import tlc
 
-_TID = re.compile(r'/\\ tid = (\d+)')
-_L = re.compile(r'/\\ l = (\d+)')
+_TID = re.compile(r'(?m)^(?:/\\ )?tid = (\d+)')
+_L = re.compile(r'(?m)^(?:/\\ )?l = (\d+)')
 
 
 def check(module, traces, invariants=(), properties=(), constants=None,
